@@ -522,6 +522,30 @@ func pyTableWF(rc *pyRecClient) bool {
 	return true
 }
 
+// pyTableOrdered: the hypotheses of C08_candidates_exact_client_partial on a recorded table: every
+// MatchingVersions and Versions answer is strictly ascending under semver.PyPI's comparison (which is
+// also what the comparator of matchingVersionsWithPrereleases decides).
+func pyTableOrdered(rc *pyRecClient) bool {
+	asc := func(items []sx.V) bool {
+		for i := 1; i < len(items); i++ {
+			a, ea := semver.PyPI.Parse(items[i-1].Nth(2).Str())
+			b, eb := semver.PyPI.Parse(items[i].Nth(2).Str())
+			if ea != nil || eb != nil || a.Compare(b) >= 0 {
+				return false
+			}
+		}
+		return true
+	}
+	for _, tab := range [][]pyRecEntry{rc.matching, rc.versions} {
+		for _, e := range tab {
+			if e.val.Nth(0).Int() == 1 && !asc(e.val.Nth(1).List()) {
+				return false
+			}
+		}
+	}
+	return true
+}
+
 func init() {
 	// (universe (root...)) -> (markers direct ((rec rawdiffers rawobs nondet inconsistent wf rejected)...) modelcase)
 	register("pypi_record", func(a sx.V) sx.V {
@@ -559,7 +583,7 @@ func init() {
 				}
 			}
 			per = append(per, sx.L(rec, sx.Bool(rawDiffers), rawObs, sx.Bool(nondet), sx.Bool(rc.inconsistent),
-				sx.Bool(pyTableWF(rc)), sx.Int(rejected)))
+				sx.Bool(pyTableWF(rc)), sx.Int(rejected), sx.Bool(pyTableOrdered(rc))))
 			cases = append(cases, sx.L(rv, table))
 		}
 		return sx.L(oracles.Nth(0), direct, sx.L(per...), sx.B(sx.L(oracles, sx.L(cases...)).String()))
